@@ -1,12 +1,11 @@
 import JL.Generated.Fns
+import JL.Lemmas.TieAuto
 import JL.Tie.to_number
 /-! tie: `to_negative`, as translated from the crate's current source, is the model's function - for every input -/
 namespace JL.Tie
 open JL
 
 theorem to_negative (v : Json) : Gen.to_negative v = JsOp.toNegative v := by
-  unfold Gen.to_negative JsOp.toNegative
-  rw [to_number]
-  cases JsOp.toNumber v <;> simp [rs, F64.one, F64.negate]
+  tie_close [Gen.to_negative, JsOp.toNegative, to_number, F64.one, F64.negate] splitting JsOp.toNumber
 
 end JL.Tie
